@@ -15,7 +15,10 @@ Families of cells
          KLExpansion truncated / MappedGeometry) x forward-model definition (which operator: dense catalogue
          matrix / node selection x[::2], x[1:], x; how it is handed over: dense ndarray, scipy.sparse csr / csc,
          forward+adjoint functions; what the functions return: freshly computed ndarray, a view of the input /
-         the input object itself, a CUQIarray); inside a cell: prior mean (scalar 0 / scalar / zero
+         the input object itself, a CUQIarray; how the LinearModel object was obtained from the defining one: the
+         defined object itself / the transpose B.T of a model B defined with the TRANSPOSED operator and swapped
+         geometries / B.T after B.get_matrix() ran on the parent / the double transpose (B.T).T - all the same
+         forward model, for square non-symmetric, square symmetric and non-square operators); inside a cell: prior mean (scalar 0 / scalar / zero
          vector / vector) x {as specified, after the public compute_cov()} -> MAP() and
          sample_posterior() (standard-normal request answered with the complete basis).
   ml     ML() over sizes x likelihood spec x model x geometry.
@@ -52,7 +55,9 @@ RULE = ("cells = family x full configuration product (see BOUND) of sizes, Gauss
         "forward-model definition (operator: dense catalogue matrix / node selections x[::2], x[1:], x; handed over as "
         "dense ndarray / scipy.sparse matrix / forward+adjoint functions (LinearModel) / forward function with or "
         "without Jacobian (generic Model); functions returning a freshly computed ndarray / a view of their input or "
-        "the input object itself / a CUQIarray); every lg cell evaluates MAP() and the direct "
+        "the input object itself / a CUQIarray; LinearModel object obtained as: the defined object / B.T of a model B that "
+        "was defined with the transposed operator and swapped geometries / B.T after B.get_matrix() / (B.T).T, for the "
+        "catalogue matrix in square non-symmetric, square symmetric ((A+A^T)/2) and non-square shapes); every lg cell evaluates MAP() and the direct "
         "sampler for 4 prior-mean kinds x {as specified, after compute_cov()} and answers the standard-normal "
         "request with the complete basis {0,e_1..e_n}+1 linearity probe+1 three-draw run; every returned point is "
         "compared with the dense closed form and with all 4n lattice neighbours of the reference log-density; "
@@ -62,7 +67,7 @@ BOUND = {
              "StepExpansion); every other model x geometry (2 x 6) and the sizes (3,3),(2,3): 34 spec pairs (each of "
              "the 16 likelihood / 16 prior specs against the scalar-cov partner + 2 mixed); each cell x 4 prior means "
              "x {as given, compute_cov()} x {MAP, direct sampling on the basis}; ml: 3 sizes x 16 specs x 2 models x "
-             "6 geometries; lgopt: (3,2) x 34 spec pairs x 2 generic models x 3 geometries x 2 means; nl: 14 problems "
+             "6 geometries; lgopt: (3,2) x 34 spec pairs x 2 generic models x 3 geometries x 2 means; nl: 16 problems "
              "x 1 variant; lattice: 4n neighbours at 0.05/0.5 sigma; value catalogue = seed % 3; "
              "square-root orientation: the 20 non-standard oriented specs (sqrtcov, sqrtprec) x (scalar: neg; vector, "
              "diag: neg, mixed; dense: neg, flip, lower, lowerflip + upper (sqrtcov) / sym (sqrtprec)): lg: each on the "
@@ -76,10 +81,16 @@ BOUND = {
              "(selections: n in {2,3}, m = number of selected nodes) x 6 geometries x 5 spec pairs (every "
              "parameterisation and shape at least once on each side; 34 pairs for default geometry, n=2); ml: the same 5 "
              "definitions x n=3 (catalogue matrix: (3,3)) x 4 specs x 6 geometries; lgopt: {x[::2], x[1:], x returning views; catalogue matrix "
-             "returning CUQIarray} x 2 generic models x 2 sizes x 5 spec pairs x 3 geometries x 2 means",
+             "returning CUQIarray} x 2 generic models x 2 sizes x 5 spec pairs x 3 geometries x 2 means; "
+             "derived models: lg: {B.T, B.T after B.get_matrix(), (B.T).T} x {matrix-defined, function-defined parent} x 10 operator shapes (default geometry: 3x3 "
+             "catalogue matrix [square, verified non-symmetric], its symmetric part, 3x2, 2x3; Continuous1D: 3x3; "
+             "StepExpansion: 3x4 and 4x4 on 4 function values; KLExpansion all modes: 3x3; truncated: 4x4 on 4 function "
+             "values; MappedGeometry: 3x3) x 5 spec pairs (x 4 means x {as given, compute_cov()} x {MAP, MAP(x0), direct "
+             "sampling} + ML after MAP); ml: the same derivations x parents x shapes x 4 noise specs; nl: LMRF / CMRF "
+             "prior problems additionally with the 4x3 operator given as B.T (MAP through the optimiser, ML)",
     "thorough": "lg: (m,n) in {(3,2),(3,3),(2,3)} x 16 likelihood specs x 16 prior specs x 2 models x 6 geometries, "
                 "plus (1,2),(2,1),(4,3) x 34 spec pairs x 2 x 6 (each cell x 4 means x 2 x {MAP, direct sampling}); "
-                "ml: 3 sizes x 16 x 2 x 6 x 2 start points; lgopt: 3 sizes x 16 x 16 x 2 x 3 x 2; nl: 14 problems x 3 "
+                "ml: 3 sizes x 16 x 2 x 6 x 2 start points; lgopt: 3 sizes x 16 x 16 x 2 x 3 x 2; nl: 16 problems x 3 "
                 "variants; value catalogue = seed % 3; square-root orientation: lg: (3,2) matrix model default geometry: full "
                 "product of the 21 (20 oriented + scalar cov) likelihood x 21 prior specs (440 pairs), every other of 3 "
                 "sizes x 2 models x 6 geometries: 46 pairs; ml: 20 oriented specs x 3 sizes x 2 models x 6 geometries x 2 "
@@ -90,7 +101,11 @@ BOUND = {
                 "functions returning CUQIarray(S@x): n in {2,3} x 6 geometries x (34 pairs for default and Continuous1D "
                 "geometry, 5 otherwise); ml: all 18 definitions x sizes x 16 specs x 6 geometries x 2 starts; lgopt: "
                 "selections x {view, fresh, CUQIarray} + catalogue matrix returning CUQIarray, 2 generic models x 2 "
-                "sizes x 34 pairs x 3 geometries x 2 means",
+                "sizes x 34 pairs x 3 geometries x 2 means; derived models: lg: {B.T, B.T after B.get_matrix(), (B.T).T} x parents {dense matrix, csr matrix, functions returning ndarray, "
+                "functions returning CUQIarray} x 6 geometries x operators {catalogue matrix (3,2),(3,3),(2,3) and "
+                "square on the function values of n = 2, 3 parameters; symmetric part of the square ones; x[::2], x[1:], "
+                "x for n = 2, 3} x (34 spec pairs for default geometry, 5 otherwise); ml: the same x 16 noise specs x 2 "
+                "starts; nl: as quick x 3 variants",
 }
 ASSUMPTIONS = [
     "the forward map is taken as a black box: the effective parameter-to-data matrix is [forward(e_i)-forward(0)] "
@@ -116,6 +131,12 @@ ASSUMPTIONS = [
     "the input object itself; the functions never write to their argument; advanced-indexing / reshaping / "
     "in-place-mutating operators and sparse formats other than csr/csc are not enumerated; the reference probes the "
     "forward map with a newly allocated vector per call, so it cannot be affected by aliasing itself",
+    "derived models: only LinearModel.T (single, double, and after get_matrix() on the parent) is enumerated as a way "
+    "of deriving one LinearModel object from another; the parent B of a derived model is never applied by the check itself (for a "
+    "non-identity geometry it carries that geometry on its range side; get_matrix() on such a parent is attempted and "
+    "a raise there is ignored); a derived model "
+    "that refuses (raises) at construction or at the estimate is accepted like every refusal; the square catalogue "
+    "matrices are verified to be non-symmetric (max |A - A^T| >= 0.25) when the cells are enumerated",
 ]
 
 PARAMS = ["cov", "prec", "sqrtcov", "sqrtprec"]
@@ -123,9 +144,9 @@ SHAPES = ["scalar", "vector", "diag", "dense"]
 GEOMS = ["default", "cont", "step", "klall", "kltrunc", "mapped"]
 MEANS = ["zero", "scalar", "zerovec", "vector"]
 BASE = {"lp": "cov", "ls": "scalar", "pp": "cov", "ps": "scalar", "mean": "zerovec", "model": "matrix",
-        "geom": "default", "precov": False, "op": "full", "ret": "fresh", "lo": "std", "po": "std"}
-FACET_ORDER = ["precov", "mean", "geom", "ret", "op", "model", "lo", "po", "lp", "ls", "pp", "ps"]
-FACET_NAMES = ["model", "op", "ret", "geom", "lp", "ls", "lo", "pp", "ps", "po", "mean", "precov"]
+        "geom": "default", "precov": False, "op": "full", "ret": "fresh", "lo": "std", "po": "std", "derive": "none"}
+FACET_ORDER = ["precov", "mean", "geom", "ret", "op", "model", "derive", "lo", "po", "lp", "ls", "pp", "ps"]
+FACET_NAMES = ["model", "derive", "op", "ret", "geom", "lp", "ls", "lo", "pp", "ps", "po", "mean", "precov"]
 # reduction targets tried in this order (default: the baseline value only); a selection operator that cannot be
 # reduced to the full catalogue matrix (a view-returning definition only exists for selections) is reduced to the identity
 REDUCE_TO = {"op": ["full", "ident"]}
@@ -133,11 +154,13 @@ REDUCE_TO = {"op": ["full", "ident"]}
 # Jacobian where the matrix model (closed-form route) does not fail; a sign pattern of a square root is reduced to the
 # positive triangular factor / to "all entries negated" where the standard root does not fail
 REDUCE_FROM = {("model", "generic-nograd"): ["matrix", "generic-jac"],
+               ("derive", "T-cached"): ["none", "T"], ("derive", "TT"): ["none", "T"],
                ("lo", "mixed"): ["std", "neg"], ("lo", "flip"): ["std", "neg"], ("lo", "lowerflip"): ["std", "lower", "neg"],
                ("po", "mixed"): ["std", "neg"], ("po", "flip"): ["std", "neg"], ("po", "lowerflip"): ["std", "lower", "neg"]}
 
 # ---- forward-model definition facet -------------------------------------------------------------------------
-# op    which linear operator (function-value space -> data): "full" = dense catalogue matrix; selections of nodes:
+# op    which linear operator (function-value space -> data): "full" = dense catalogue matrix; "sym" = symmetric part
+#       (A + A^T)/2 of the square catalogue matrix (derived-model cells only); selections of nodes:
 #       "stride" = every second node (x[::2]), "slice" = all nodes but the first (x[1:]), "ident" = all nodes (x)
 # model how it is handed to the library: dense ndarray / scipy.sparse csr / csc matrix, forward+adjoint functions
 #       (LinearModel), forward function with / without Jacobian (generic Model)
@@ -155,6 +178,54 @@ SMALL_PAIRS = [(("cov", "scalar"), ("cov", "scalar")), (("prec", "vector"), ("sq
                (("sqrtcov", "diag"), ("prec", "vector")), (("sqrtprec", "dense"), ("cov", "dense")),
                (("cov", "dense"), ("sqrtprec", "scalar"))]
 SMALL_SPECS = [("cov", "scalar"), ("prec", "vector"), ("sqrtcov", "diag"), ("sqrtprec", "dense")]
+
+# ---- derived models (sub-facet of the forward-model definition: how the LinearModel OBJECT of the problem was obtained)
+# derive  "none"     the object that was defined (matrix / functions) is the forward model itself
+#         "T"        a parent B is defined with the TRANSPOSED operator (matrix A^T, or functions y -> A^T y / f -> A f)
+#                    and swapped geometries; the forward model is B.T (acts as A, the cell's operator)
+#         "T-cached" as "T", but B.get_matrix() ran on the parent before it was transposed (for a function-defined
+#                    parent, and for every parent with a non-identity geometry, a matrix is assembled from the parent's
+#                    own forward map by then - whatever the parent caches must not leak into the transposed model)
+#         "TT"       the parent is defined with A itself; the forward model is (B.T).T
+# All four are the same forward model, hence the same closed-form posterior.  Operator shapes: square non-symmetric
+# (catalogue matrix with m = number of function values), square symmetric (op "sym") and non-square.
+DERIVES = ("T", "T-cached", "TT")
+DERIVED_SHAPES_QUICK = [("full", (3, 3), "default"), ("sym", (3, 3), "default"), ("full", (3, 2), "default"),
+                        ("full", (2, 3), "default"), ("full", (3, 3), "cont"), ("full", (3, 2), "step"),
+                        ("full", (4, 2), "step"), ("full", (3, 3), "klall"), ("full", (4, 2), "kltrunc"),
+                        ("full", (3, 3), "mapped")]
+DERIVED_PARENTS_QUICK = [("matrix", "fresh"), ("function", "fresh")]
+DERIVED_PARENTS_THOROUGH = DERIVED_PARENTS_QUICK + [("sparse-csr", "fresh"), ("function", "cuqiarray")]
+
+
+def _derived_shapes(thorough):
+    """(operator, (m, n), geometry) of the derived-model cells; m = None: follows from the operator."""
+    if not thorough:
+        return list(DERIVED_SHAPES_QUICK)
+    out = []
+    for geom in GEOMS:
+        squares = [(_fun_dim(geom, n), n) for n in (2, 3)]
+        for mn in [(3, 2), (3, 3), (2, 3)] + [q for q in squares if q not in [(3, 3)]]:
+            out.append(("full", mn, geom))
+        out += [("sym", q, geom) for q in squares]
+        out += [(op, (None, n), geom) for op in VIEW_OPS for n in (2, 3)]
+    return out
+
+
+def _derived_defs(thorough):
+    """(derive, model, ret, op, (m, n), geom) of all derived-model cells."""
+    for (op, mn, geom) in _derived_shapes(thorough):
+        for (model, ret) in (DERIVED_PARENTS_THOROUGH if thorough else DERIVED_PARENTS_QUICK):
+            for derive in DERIVES:
+                yield derive, model, ret, op, mn, geom
+
+
+def _verify_catalogue_not_symmetric(k):
+    """The square catalogue matrices of the derived-model cells must tell A from A^T."""
+    for N in (2, 3, 4, 5, 6):
+        A = refs.full_matrix(N, N, k)
+        if float(np.max(np.abs(A - A.T))) < 0.25:
+            raise HarnessError("catalogue matrix %dx%d (catalogue %d) is (nearly) symmetric" % (N, N, k))
 
 # ---- sign / orientation of a square root (sub-facet of the Gaussian specification, sqrtcov / sqrtprec only) ------
 # A square root is not unique: with cov = R R^T (sqrtcov) / prec = R^T R (sqrtprec) every R Q, Q orthogonal (resp. Q R),
@@ -219,7 +290,11 @@ def _rows(op, N):
 
 
 def _range_dim(op, geom, n, m):
-    return m if op == "full" else len(_rows(op, _fun_dim(geom, n)))
+    if op == "full":
+        return m
+    if op == "sym":
+        return _fun_dim(geom, n)
+    return len(_rows(op, _fun_dim(geom, n)))
 
 
 # ----------------------------------------------------------------------------------------
@@ -266,6 +341,12 @@ def cells(tier, seed):
                 for (lp, ls), (pp, ps) in pairs:
                     yield {"fam": "lg", "m": _range_dim(op, geom, n, m), "n": n, "cat": k, "lp": lp, "ls": ls,
                            "pp": pp, "ps": ps, "model": model, "geom": geom, "op": op, "ret": ret}
+    # ---- lg, derived models (B.T, B.T after B.get_matrix(), (B.T).T) x operator shape
+    _verify_catalogue_not_symmetric(k)
+    for (derive, model, ret, op, (m, n), geom) in _derived_defs(thorough):
+        for (lp, ls), (pp, ps) in (_spec_pairs(False) if thorough and geom == "default" else SMALL_PAIRS):
+            yield {"fam": "lg", "m": _range_dim(op, geom, n, m), "n": n, "cat": k, "lp": lp, "ls": ls, "pp": pp,
+                   "ps": ps, "model": model, "geom": geom, "op": op, "ret": ret, "derive": derive}
     # ---- lg, sign / orientation of the square roots (likelihood and prior side)
     if thorough:
         combos = [((m, n), model, geom) for (m, n) in [(3, 2), (3, 3), (2, 3)] for model in ("matrix", "function")
@@ -312,6 +393,11 @@ def cells(tier, seed):
                 for geom in GEOMS:
                     yield {"fam": "ml", "m": _range_dim(op, geom, n, m), "n": n, "cat": k, "lp": lp, "ls": ls,
                            "model": model, "geom": geom, "op": op, "ret": ret, "starts": 2 if thorough else 1}
+    # ---- ml, derived models
+    for (derive, model, ret, op, (m, n), geom) in _derived_defs(thorough):
+        for (lp, ls) in ([(p, sh) for p in PARAMS for sh in SHAPES] if thorough else SMALL_SPECS):
+            yield {"fam": "ml", "m": _range_dim(op, geom, n, m), "n": n, "cat": k, "lp": lp, "ls": ls, "model": model,
+                   "geom": geom, "op": op, "ret": ret, "derive": derive, "starts": 2 if thorough else 1}
     # ---- lgopt
     for (m, n) in ([(3, 2), (3, 3), (2, 3)] if thorough else [(3, 2)]):
         for (lp, ls), (pp, ps) in _spec_pairs(thorough):
@@ -461,15 +547,43 @@ def _build(size, k, cfg):
     m, n = size
     geom, N = _geom(cfg["geom"], n)
     op, ret = cfg.get("op", "full"), cfg.get("ret", "fresh")
+    derive = cfg.get("derive", "none")
     if op == "full":
         A = refs.full_matrix(m, N, k)
+    elif op == "sym":                       # symmetric part of the square catalogue matrix
+        A = refs.full_matrix(N, N, k)
+        A = 0.5 * (A + A.T)
+        m = N
     else:                                   # selection of nodes: the number of data follows from the operator
         rows = _rows(op, N)
         m = len(rows)
         A = np.eye(N)[rows]
     dg = geom if geom is not None else n
     kind = cfg["model"]
-    if kind in ("matrix", "sparse-csr", "sparse-csc"):
+    if derive not in ("none", "T", "T-cached", "TT"):
+        raise ValueError(derive)
+    if derive != "none" and kind not in ("matrix", "sparse-csr", "sparse-csc", "function"):
+        raise ValueError("no derived model of a %s model" % kind)
+    if derive in ("T", "T-cached"):
+        # the parent B is defined with the transposed operator A^T (function values <- data) and carries the cell's
+        # domain geometry on its RANGE side; B.T then is the cell's forward model (parameters -> data through A)
+        AT = A.T.copy()
+        if kind == "function":
+            fwdT, adjT = _function_pair(AT, "full", ret, m)
+            # argument names: the parent's adjoint becomes the forward of B.T and takes the parameter, called x
+            B = LinearModel(lambda y: fwdT(y), lambda x: adjT(x), range_geometry=dg, domain_geometry=m)
+        else:
+            if kind != "matrix":
+                import scipy.sparse
+                AT = scipy.sparse.csr_matrix(AT) if kind == "sparse-csr" else scipy.sparse.csc_matrix(AT)
+            B = LinearModel(AT, range_geometry=geom) if geom is not None else LinearModel(AT)
+        if derive == "T-cached":
+            try:
+                B.get_matrix()
+            except Exception:       # a parent that cannot assemble its own matrix is transposed all the same
+                pass
+        M = B.T
+    elif kind in ("matrix", "sparse-csr", "sparse-csc"):
         if kind == "matrix":
             Amat = A.copy()
         else:
@@ -486,6 +600,8 @@ def _build(size, k, cfg):
             M = Model(fwd, range_geometry=m, domain_geometry=dg)
         else:
             raise ValueError(kind)
+    if derive == "TT":
+        M = M.T.T
     la, Ce = _spec(m, cfg["lp"], cfg["ls"], k, "lik", cfg.get("lo", "std"))
     pa, Cx = _spec(n, cfg["pp"], cfg["ps"], k, "pri", cfg.get("po", "std"))
     marg, mu = _mean(cfg["mean"], n, k)
@@ -872,7 +988,7 @@ def _eval_lg(cell):
             cfg = {"lp": cell["lp"], "ls": cell["ls"], "pp": cell["pp"], "ps": cell["ps"], "mean": mean,
                    "model": cell["model"], "geom": cell["geom"], "precov": precov,
                    "op": cell.get("op", "full"), "ret": cell.get("ret", "fresh"),
-                   "lo": cell.get("lo", "std"), "po": cell.get("po", "std")}
+                   "lo": cell.get("lo", "std"), "po": cell.get("po", "std"), "derive": cell.get("derive", "none")}
             tag = "%s/%s" % (mean, "precov" if precov else "asgiven")
             prep = _prepare(size, k, cfg)
             # ---- MAP
@@ -988,7 +1104,8 @@ def _eval_ml(cell):
     size, k = (cell["m"], cell["n"]), cell["cat"]
     cfg = {"lp": cell["lp"], "ls": cell["ls"], "pp": "cov", "ps": "scalar", "mean": "zerovec",
            "model": cell["model"], "geom": cell["geom"], "precov": False,
-           "op": cell.get("op", "full"), "ret": cell.get("ret", "fresh"), "lo": cell.get("lo", "std"), "po": "std"}
+           "op": cell.get("op", "full"), "ret": cell.get("ret", "fresh"), "lo": cell.get("lo", "std"), "po": "std",
+           "derive": cell.get("derive", "none")}
     judged = 0
     for si in range(cell["starts"]):
         x0 = None if si == 0 else refs.dyadic_vec(cell["n"], k + 4, scale=0.5)
@@ -1093,7 +1210,7 @@ def _nl_explink(jac):
     return make
 
 
-def _nl_mrf(family, with_loc):
+def _nl_mrf(family, with_loc, transposed=False):
     def make(k, var):
         import cuqi
         from cuqi.distribution import Gaussian
@@ -1103,7 +1220,8 @@ def _nl_mrf(family, with_loc):
         sc = [0.5, 1.0, 0.25][var]
         s2 = [0.25, 0.125, 0.5][var]
         loc = [0.25, -0.5, 0.75][var] if with_loc else 0
-        M = cuqi.model.LinearModel(A)
+        # transposed: the same operator handed over as the transpose B.T of a model defined with A^T
+        M = cuqi.model.LinearModel(A.T.copy()).T if transposed else cuqi.model.LinearModel(A)
         if family == "LMRF":
             x = cuqi.distribution.LMRF(loc, sc, geometry=n)
         elif family == "CMRF":
@@ -1190,6 +1308,8 @@ NL_PROBLEMS = {
     "linear+CMRF": _nl_mrf("CMRF", False),
     "linear+CMRF,location": _nl_mrf("CMRF", True),
     "linear+Laplace,location": _nl_mrf("Laplace", True),
+    "linear.T+LMRF": _nl_mrf("LMRF", False, transposed=True),
+    "linear.T+CMRF,location": _nl_mrf("CMRF", True, transposed=True),
     "laplace-noise": _nl_laplace_noise,
     "Heat1D": _nl_pde("Heat1D", None, False),
     "Heat1D-Step": _nl_pde("Heat1D", "Step", False),
